@@ -331,6 +331,11 @@ def compile_logical_or_and_and_operator(compiler, expr, operator, args):
             # This is the first iteration. Don't actually introduce a
             # `BoolOp` yet; the unary case doesn't need it.
             ret = value
+            if len(args) > 1:
+                # The result is no longer just the first operand, so its
+                # temporary variables aren't ours (and mustn't be renamed
+                # by an enclosing `setv`).
+                ret.temp_variables = []
             stmts = ret.stmts
             can_append = False
         elif value.stmts:
